@@ -606,6 +606,9 @@ func (rule *RuleAction) checkAction(meta *ActionMetadata, exec *ExecAction, desc
 	for _, id := range ids {
 		i := meta.Inputs[id]
 		if i.Required {
+			if id == "args" && exec.Args != nil || id == "entrypoint" && exec.Entrypoint != nil {
+				continue // "args" and "entrypoint" of "with:" are not stored in exec.Inputs, but they are given
+			}
 			if _, ok := exec.Inputs[id]; !ok {
 				ns := make([]string, 0, len(meta.Inputs))
 				for _, i := range meta.Inputs {
